@@ -368,7 +368,7 @@ pub fn generate(rng: &mut Rng, o: &GenOpts) -> Gen {
                     };
                     block.intrinsic(Intrinsic::new("intr", "intr op", Vec::new(), written, read, vec![0x0f, 0x0b, 0, 0]));
                 }
-                15 if o.indirect_branches && ninstr == 0 => {
+                15 if o.indirect_branches && ninstr == 0 && outs[bi].is_empty() => {
                     // indirect branch as last instruction; target patched below
                     block.branch(cst(0, 64));
                     let idx = block.instructions().last().unwrap().index();
